@@ -65,6 +65,11 @@ def execute_sim(case):
             if kind == 'unix':
                 socks.append(CircusSocket(
                     name='s%d' % i, path=os.path.join(tmp, 's%d.sock' % i)))
+            elif kind == 'unix-dgram':
+                import socket as _socket
+                socks.append(CircusSocket(
+                    name='s%d' % i, path=os.path.join(tmp, 's%d.sock' % i),
+                    type=_socket.SOCK_DGRAM))
             else:
                 socks.append(CircusSocket(name='s%d' % i, host='127.0.0.1',
                                           port=0))
@@ -360,7 +365,8 @@ def _enum_case(opname, trig, steps, stubborn, during_start=None):
             {"react": "die", "delay": 0.05},
             "arbiter": {"warmup_delay": 0.3},
             "ops": list(ENUM_OPS[opname]) + [["next"]] * steps}
-    c = {"history": hist, "trigger": trig, "sockets": ["inet", "unix"]}
+    c = {"history": hist, "trigger": trig,
+         "sockets": ["inet", "unix", "unix-dgram"]}
     if during_start is not None:
         c["during_start"] = during_start
     return c
@@ -403,8 +409,8 @@ def _sim_strategy():
             [{"react": "ignore"}, {"react": "die", "delay": 0.0},
              {"react": "die", "delay": 0.15}]))
         c = {"history": hist, "trigger": draw(trig),
-             "sockets": draw(st.lists(st.sampled_from(['inet', 'unix']),
-                                      max_size=2))}
+             "sockets": draw(st.lists(st.sampled_from(
+                 ['inet', 'unix', 'unix-dgram']), max_size=3))}
         if draw(st.integers(0, 3)) == 0:
             c["second"] = draw(trig)
             c["second_after"] = draw(st.integers(0, 3))
